@@ -34,6 +34,25 @@ def build(rng, lazy):
     from pydap.model import BaseType, DatasetType, GridType, SequenceType, StructureType
     ds = DatasetType("d")
     arrays = {}
+    # a Grid whose maps are named like top-level arrays declared after it: a function argument names the variable with that id,
+    # not some other variable with the same short name
+    clash = rng.random() < 0.5
+    grank = rng.randint(1, 3)
+    gshape = tuple(rng.randint(1, 4) for _ in range(grank))
+    gd = tuple((["x", "f", "w"][k] if clash else "m%d" % k) for k in range(grank))
+
+    def add_grid():
+        g = GridType("g")
+        ga_ = (np.arange(int(np.prod(gshape))) * 1.5 - 2).reshape(gshape)
+        g["a"] = BaseType("a", ga_, dims=gd)
+        maps_ = {}
+        for k, n in enumerate(gshape):
+            maps_[gd[k]] = np.arange(n) * (k + 1.0) + 100
+            g[gd[k]] = BaseType(gd[k], maps_[gd[k]])
+        ds["g"] = g
+        return ga_, maps_
+    if clash:
+        ga, maps = add_grid()
     for name, rank in (("x", rng.randint(1, 3)), ("f", rng.randint(1, 3)), ("w", 2)):
         shape = tuple(rng.randint(1, 4) for _ in range(rank))
         dt = rng.choice(["i4", "f8", "i2", "f4", "u1"])
@@ -41,17 +60,8 @@ def build(rng, lazy):
         dims = tuple("%s_d%d" % (name, k) for k in range(rank)) if rng.random() < 0.6 else ()
         ds[name] = BaseType(name, a, dims=dims)
         arrays[name] = (a, dims)
-    grank = rng.randint(1, 3)
-    gshape = tuple(rng.randint(1, 4) for _ in range(grank))
-    g = GridType("g")
-    ga = (np.arange(int(np.prod(gshape))) * 1.5 - 2).reshape(gshape)
-    gd = tuple("m%d" % k for k in range(grank))
-    g["a"] = BaseType("a", ga, dims=gd)
-    maps = {}
-    for k, n in enumerate(gshape):
-        maps[gd[k]] = np.arange(n) * (k + 1.0)
-        g[gd[k]] = BaseType(gd[k], maps[gd[k]])
-    ds["g"] = g
+    if not clash:
+        ga, maps = add_grid()
     st = StructureType("st")
     sa = np.arange(6, dtype="i4").reshape(2, 3)
     st["m"] = BaseType("m", sa)
